@@ -362,6 +362,9 @@ func (e *Extractor) IsCharacterLevel() (bool, error) {
 	if err := e.ensureReader(); err != nil {
 		return false, err
 	}
+	if err := e.requirePDF(); err != nil {
+		return false, err
+	}
 
 	page, err := e.reader.GetPage(0)
 	if err != nil {
@@ -391,6 +394,9 @@ func (e *Extractor) IsMultiColumn() (bool, error) {
 	}
 
 	if err := e.ensureReader(); err != nil {
+		return false, err
+	}
+	if err := e.requirePDF(); err != nil {
 		return false, err
 	}
 
@@ -1822,9 +1828,21 @@ func (e *Extractor) validateFormat() error {
 	return nil
 }
 
+// requirePDF reports an error when an operation that works on PDF pages is called
+// on a file of another format (only the PDF reader provides pages and fragments).
+func (e *Extractor) requirePDF() error {
+	if e.reader == nil {
+		return fmt.Errorf("operation is only supported for PDF files (format: %s)", e.format)
+	}
+	return nil
+}
+
 // resolvePages converts 1-indexed page numbers to 0-indexed and validates them.
 // If no pages specified, returns all pages.
 func (e *Extractor) resolvePages() ([]int, error) {
+	if err := e.requirePDF(); err != nil {
+		return nil, err
+	}
 	pageCount, err := e.reader.PageCount()
 	if err != nil {
 		return nil, fmt.Errorf("failed to get page count: %w", err)
